@@ -34,13 +34,34 @@ def probe_steps(w, mark):
     return k0, len(w.steps)
 
 
+def nest(w, repo):
+    """an untagged image inside an untagged index inside a tagged index (children two levels below index.json)"""
+    rng = w.rng
+    cfg = b"{}"
+    w.add(upload_post(repo, digest=dg("sha256", cfg), body=cfg))
+    m = image_manifest(desc(MT_CFG, cfg), [], annotations={"nest": str(len(w.steps))})
+    w.add(manifest_put(repo, dg("sha256", m), m, ctype=MT_OCI_M))
+    mt1 = rng.choice([MT_OCI_I, MT_DOCK_I])
+    i1 = index_manifest([desc(MT_OCI_M, m)], media_type=mt1, annotations={"level": "1-%d" % len(w.steps)} if mt1 == MT_OCI_I else None)
+    w.add(manifest_put(repo, dg("sha256", i1), i1, ctype=mt1))
+    i2 = index_manifest([desc(mt1, i1)], media_type=MT_OCI_I, annotations={"level": "2-%d" % len(w.steps)})
+    tag = rng.choice(["nested", "t1"])
+    w.add(manifest_put(repo, tag, i2, ctype=MT_OCI_I))
+    for b, mt in ((m, MT_OCI_M), (i1, mt1), (i2, MT_OCI_I)):
+        w.contents.add(b)
+        w.manifests[repo].append((b, mt))
+    w.tags[repo].add(tag)
+
+
 def make_cases(ctx, first):
     n, steps = (150, 40) if ctx.tier == "quick" else (4000, 60)
     rng = ctx.rng
     cases = []
     for i in range(n):
         variant = i % 4
-        pol = rng.choice([dict(), dict(), dict(untagged=True), dict(grace_ms=-1), dict(dangling=True)])
+        # re-opening is compared under the default policy (Close collects every repository: with the default grace period
+        # it removes nothing of these histories); collections under the other policies are part of the other variants
+        pol = dict() if variant in (0, 2) else rng.choice([dict(), dict(untagged=True), dict(grace_ms=-1), dict(grace_ms=-1), dict(dangling=True)])
         conf = mkconf(store="dir", withsubj=False, **pol)
         w = gen.World(rng, conf, repos=REPOS, profile=PROFILE)
         marks = 0
@@ -54,15 +75,29 @@ def make_cases(ctx, first):
                     x = tag_list(repo)
                     x["after_snapshot"] = True
                     w.add(x)
+            elif r < 0.42 and variant in (1, 3):
+                # empty a repository, collect it (an empty repository directory is removed), push to the same name again
+                repo = rng.choice(REPOS)
+                for t in sorted(w.tags[repo]):
+                    w.add(manifest_delete(repo, t))
+                for b, mt in list(w.manifests[repo]):
+                    w.add(manifest_delete(repo, dg("sha256", b)))
+                w.tags[repo] = set()
+                w.manifests[repo] = []
+                w.subjects[repo] = set()
+                w.add(gcgen.gc_step(repo))
+                w.add(special("snapshot", full=True))
+                for rp in REPOS:
+                    x = tag_list(rp)
+                    x["after_snapshot"] = True
+                    w.add(x)
             elif r < 0.55:
                 # a collection at any point (the generator also leaves blobs without a manifest and open sessions around)
                 w.add(gcgen.gc_step(rng.choice(REPOS)))
             elif r < 0.70 and variant in (0, 2):
                 marks += 1
-                # Close collects every open repository with the configured policy: the collection is made part of the history
-                # before the reads that are compared, so that the comparison is about re-opening alone
-                for repo in REPOS:
-                    w.add(gcgen.gc_step(repo))
+                if rng.random() < 0.4:
+                    nest(w, rng.choice(REPOS))
                 probe_steps(w, ("pre", marks))
                 if variant == 0 or rng.random() < 0.5:
                     w.add(restart_step())
@@ -170,6 +205,27 @@ def check_layout(ctx, case, k, files, tags_api):
             return
 
 
+def parents_deleted(case, io, k, repo, digest):
+    """was an index that lists [digest] pushed to [repo] and deleted again before step k (known finding F35)?"""
+    parents = {}       # digest of an accepted index listing [digest] -> tags it was pushed under
+    for j in range(k):
+        st, r = case["steps"][j], io["steps"][j]
+        if st.get("repo") != repo:
+            continue
+        if st["kind"] == "mput" and r.get("status") == 201:
+            try:
+                jb = json.loads(st["body"].decode("utf-8"))
+            except Exception:
+                continue
+            if isinstance(jb, dict) and any(isinstance(x, dict) and x.get("digest") == digest for x in (jb.get("manifests") or [])):
+                d = (r.get("headers") or {}).get("Docker-Content-Digest", [""])[0]
+                parents.setdefault(d, set()).add(st["arg"])
+        elif st["kind"] == "mdel" and r.get("status") == 202:
+            if st["arg"] in parents:
+                return True
+    return False
+
+
 def oracle(ctx, case, io):
     if case["conf"]["store"] == "mem":
         return
@@ -203,10 +259,11 @@ def oracle(ctx, case, io):
                     a, b = p[1], c
                     diff = {x: (a.get(x), b.get(x)) for x in set(a) | set(b) if a.get(x) != b.get(x)}
                     how = "memory store opened over the directory" if frozen else "new server on the same directory"
-                    was_child = st["kind"] == "mget" and a.get("status") == 200 and b.get("status") == 404
+                    was_child = (st["kind"] == "mget" and a.get("status") == 200 and b.get("status") == 404
+                                 and parents_deleted(case, io, k, st.get("repo"), st.get("arg")))
                     ctx.violation("%s %s/%s answers differently after re-opening (%s): %s" % (st["kind"], st.get("repo"), st.get("arg"), how, str(diff)[:300]),
                                   oracles.hist(case, k, r, before=str(a)[:800], after=str(b)[:800]),
-                                  "C10:reopen-%s%s" % (st["kind"], "-child-lost" if was_child else ""))
+                                  "C10:reopen-%s%s" % (st["kind"], "-child-of-deleted-index" if was_child else ""))
                     return
 
 
